@@ -192,6 +192,9 @@ def _small_mh(rng, base):
         return ["IntList", rng.choice([[7], [0, 1], [-2, 4, 9], [3, 3]])]
     if base == "float":
         if rng.random() < 0.6:
+            if rng.random() < 0.35:  # int-literal bounds are legal (geml/grammars/sgp.py: FloatRange(0, 9)); values must still be floats
+                lo = rng.choice([0, 1, 2, -3])
+                return ["FloatRange", lo, lo + rng.choice([0, 1, 4, 9])]
             lo = rng.choice([-1.5, 0.0, 0.25])
             return ["FloatRange", lo, lo + rng.choice([0.0, 0.5, 10.0])]
         return ["FloatList", rng.choice([[0.5], [0.0, 1.0], [-2.5, 2.5, 7.0]])]
@@ -236,6 +239,9 @@ def _gen_type(rng, names_abs, names_conc, depth, profile, siblings):
         return [rng.choice(["int", "float", "bool", "bool", "str"])]
     if r < 0.76:  # list
         inner = _gen_type(rng, names_abs, names_conc, depth + 1, profile, [])
+        if len(refs) >= 2 and rng.random() < 0.3:  # wrappers nested in wrappers: list[Union[..]], list[tuple[..]]
+            ks = rng.sample(refs, 2)
+            inner = [rng.choice(["union", "union", "tuple"]), ["ref", ks[0]], ["ref", ks[1]]]
         c = rng.random()
         if finite or c < 0.6:
             lo = rng.choice([0, 0, 1, 2]) if not finite else rng.choice([0, 1])
@@ -388,6 +394,23 @@ FIXED = [
         "start": "Expr",
     },
 ]
+
+
+FIXED.append(
+    {  # wrappers nested in wrappers; members of different depth; int-literal float bounds
+        "name": "fx_nested",
+        "abstracts": [{"name": "Stmt", "parent": None, "style": "abc"}, {"name": "Expr", "parent": None, "style": "abc"}],
+        "prods": [
+            {"name": "Ret", "parent": "Stmt", "fields": [["e", ["ref", "Expr"]]]},
+            {"name": "Block", "parent": "Stmt", "fields": [["body", ["ann", ["list", ["union", ["ref", "Expr"], ["ref", "Stmt"]]], ["ListSizeBetween", 1, 2]]]]},
+            {"name": "Seq", "parent": "Stmt", "fields": [["items", ["list", ["tuple", ["ref", "Expr"], ["ref", "Stmt"]]]]]},
+            {"name": "Lit", "parent": "Expr", "fields": [["v", ["ann", ["int"], ["IntRange", 0, 1]]]]},
+            {"name": "Num", "parent": "Expr", "fields": [["x", ["ann", ["float"], ["FloatRange", 0, 9]]], ["y", ["ann", ["float"], ["FloatRange", 2, 2]]]]},
+            {"name": "Var", "parent": "Expr", "fields": [["n", ["ann", ["str"], ["VarRange", ["x", "y"]]]]]},
+        ],
+        "start": "Stmt",
+    },
+)
 
 
 def family(seed: int, n: int, profile="general", with_fixed=True):
